@@ -12,7 +12,7 @@ func init() {
 }
 
 var sqlLeafForms = []int{lfEqStr, lfEqInt, lfGt, lfGe, lfLt, lfLe, lfRangeIncl, lfRangeExcl, lfRangeLo, lfRangeHi, lfRangeStr, lfList,
-	lfWild, lfQuoted, lfRangeExclStr, lfRangeStrLo, lfRangeStrHi, lfRangeAll, lfRangeExclLo, lfRangeExclHi, lfListInt, lfWildMid, lfRegexp, lfFloat, lfRangeFloat, lfRangeFloatEx, lfRegexpShort, lfSpecialFloat, lfRangeComma, lfEqSpecial, lfEqBig, lfRangeBig, lfRangeMixed, lfQuotedDigits}
+	lfWild, lfQuoted, lfRangeExclStr, lfRangeStrLo, lfRangeStrHi, lfRangeAll, lfRangeExclLo, lfRangeExclHi, lfListInt, lfWildMid, lfRegexp, lfFloat, lfRangeFloat, lfRangeFloatEx, lfRegexpShort, lfSpecialFloat, lfRangeComma, lfEqSpecial, lfEqBig, lfRangeBig, lfRangeMixed, lfQuotedDigits, lfRangeWildLo, lfRangeWildHi, lfWildEsc, lfWildEscWild, lfWildUnderscore, lfWildPunct, lfListMixed}
 
 var sqlTreeOps = []int{nOr, nAnd, nNot, nMustNot, nMust}
 
@@ -28,7 +28,7 @@ func leafIsInt(lf *leaf) bool {
 // leafEvaluable: forms whose meaning the row evaluator models (no floats, no regexps).
 func leafEvaluable(lf *leaf) bool {
 	switch lf.form {
-	case lfRegexp, lfRegexpShort, lfFloat, lfRangeFloat, lfRangeFloatEx, lfSpecialFloat, lfRangeMixed:
+	case lfRegexp, lfRegexpShort, lfFloat, lfRangeFloat, lfRangeFloatEx, lfSpecialFloat, lfRangeMixed, lfListMixed:
 		return false
 	}
 	return true
@@ -40,6 +40,10 @@ func globMatch(s, pat string) bool {
 		return len(s) == 0
 	}
 	switch pat[0] {
+	case '\\': // an escaped character stands for itself
+		if len(pat) > 1 {
+			return len(s) > 0 && rtAnd(s[0] == pat[1], globMatch(s[1:], pat[2:]))
+		}
 	case '*':
 		res := false
 		for k := 0; k <= len(s); k++ {
@@ -85,7 +89,7 @@ func leafMeaning(lf *leaf, x rowVal) bool {
 		return x.i > lf.i1
 	case lfRangeAll:
 		return true
-	case lfRangeStr, lfRangeComma:
+	case lfRangeStr, lfRangeComma, lfRangeWildLo, lfRangeWildHi:
 		return rtAnd(x.s >= lf.s1, x.s <= lf.s2)
 	case lfRangeExclStr:
 		return rtAnd(x.s > lf.s1, x.s < lf.s2)
@@ -97,7 +101,7 @@ func leafMeaning(lf *leaf, x rowVal) bool {
 		return rtOr(x.s == lf.s1, x.s == lf.s2)
 	case lfListInt:
 		return rtOr(x.i == lf.i1, x.i == lf.i2)
-	case lfWild, lfWildMid:
+	case lfWild, lfWildMid, lfWildEsc, lfWildEscWild, lfWildUnderscore, lfWildPunct:
 		return globMatch(x.s, lf.s1)
 	}
 	return false
@@ -202,8 +206,10 @@ func hasOpenEnd(t *node) bool {
 
 func translatePattern(p string) string {
 	b := []byte(p)
-	for i := range b {
-		if b[i] == '*' {
+	for i := 0; i < len(b); i++ {
+		if b[i] == '\\' { // an escaped character, wildcard or not, stays what it is
+			i++
+		} else if b[i] == '*' {
 			b[i] = '%'
 		} else if b[i] == '?' {
 			b[i] = '_'
@@ -224,10 +230,12 @@ func leafValues(lf *leaf) []qval {
 		return []qval{{isInt: true, i: lf.i1}}
 	case lfRangeIncl, lfRangeExcl, lfListInt:
 		return []qval{{isInt: true, i: lf.i1}, {isInt: true, i: lf.i2}}
-	case lfRangeStr, lfRangeExclStr, lfList, lfRangeComma:
+	case lfRangeStr, lfRangeExclStr, lfList, lfRangeComma, lfRangeWildLo, lfRangeWildHi: // a wildcard character in a range bound is a character
 		return []qval{{s: lf.s1}, {s: lf.s2}}
-	case lfWild, lfWildMid:
+	case lfWild, lfWildMid, lfWildEsc, lfWildEscWild, lfWildUnderscore, lfWildPunct:
 		return []qval{{s: translatePattern(lf.s1)}}
+	case lfListMixed:
+		return []qval{{isInt: true, i: lf.i1}, {isFlt: true, f: 2.5, fs: "2.5"}}
 	case lfRegexp, lfRegexpShort:
 		return []qval{{s: lf.s1}}
 	case lfFloat:
